@@ -291,7 +291,7 @@ orc_arm_emit_label (OrcCompiler *compiler, int label)
 {
   ORC_ASSERT (label < ORC_N_LABELS);
 
-  ORC_ASM_CODE(compiler,".L%d:\n", label);
+  ORC_ASM_CODE(compiler,".L%s_%d:\n", compiler->program->name, label);
 
   compiler->labels[label] = compiler->codeptr;
 }
@@ -411,17 +411,19 @@ orc_arm_emit_branch (OrcCompiler *compiler, int cond, int label)
       code = 0x54000000;
       code |=  cond&0xf;
 
-      ORC_ASM_CODE(compiler,"  b.%s .L%d\n", orc_arm_cond_name(cond), label);
+      ORC_ASM_CODE(compiler,"  b.%s .L%s_%d\n", orc_arm_cond_name(cond),
+          compiler->program->name, label);
     } else {
       code = 0x14000000;
 
-      ORC_ASM_CODE(compiler,"  b .L%d\n", label);
+      ORC_ASM_CODE(compiler,"  b .L%s_%d\n", compiler->program->name, label);
     }
   } else {
     code = 0x0afffffe;
     code |= (cond&0xf) << 28;
 
-    ORC_ASM_CODE(compiler,"  b%s .L%d\n", orc_arm_cond_name(cond), label);
+    ORC_ASM_CODE(compiler,"  b%s .L%s_%d\n", orc_arm_cond_name(cond),
+        compiler->program->name, label);
   }
   orc_arm_add_fixup (compiler, label, 0);
   orc_arm_emit (compiler, code);
@@ -1795,7 +1797,7 @@ orc_arm64_emit_mem (OrcCompiler *p, OrcArm64RegBits bits, OrcArm64Mem opcode,
         int label = opt;
         /** resolve the actual address diff in fixup code */
         orc_arm_add_fixup (p, label, 2);
-        snprintf (opt_rn, ARM64_MAX_OP_LEN, ", .L%d", label);
+        snprintf (opt_rn, ARM64_MAX_OP_LEN, ", .L%s_%d", p->program->name, label);
       } else {
         snprintf (opt_rn, ARM64_MAX_OP_LEN, ", 0x%08x", val);
       }
